@@ -303,8 +303,12 @@ func leanStrs(xs []string) string {
 func main() {
 	repo := flag.String("repo", "/repo", "repository")
 	out := flag.String("out", "", "output file")
+	code := flag.String("code", "", "second output: Lean translation of the whitelisted functions (Code.lean)")
 	flag.Parse()
 	lz := load(*repo)
+	if *code != "" {
+		defer genCode(lz, *repo, *code)
+	}
 	sfx := load(filepath.Join(*repo, "suffix"))
 	fns := lz.funcs()
 	var sb strings.Builder
